@@ -394,12 +394,32 @@ def cli_projection(ctx, results, what_checks, n):
     Change.Match/Replace itself; the loop around them in main.go is exercised only here."""
     cand = [r for r in results if r[3]["status"] == "ok" and r[2]["status"] == "ok" and r[0].get("patches") and r[0].get("src")
             and r[2].get("tree") is not None and r[3].get("tree") is not None]
+    failing = [r for r in results if r[3]["status"] == "err" and r[2]["status"] == "err" and r[0].get("patches") and r[0].get("src")]
     rng = random.Random(ctx.seed + 99)
     matched = [r for r in cand if any(t.startswith("k") for t in r[3]["trace"])]
     unmatched = [r for r in cand if not any(t.startswith("k") for t in r[3]["trace"])]
     multi = [r for r in matched if len(r[3]["trace"]) > 1]
     rng.shuffle(matched); rng.shuffle(unmatched)
     sample = (multi[: n // 3] + matched[: n - min(len(multi), n // 3) - n // 8] + unmatched[: n // 8])[:n]
+    # a change that cannot be generated makes the whole file fail: the binary must report it and emit the original
+    for inp, orig, impl, model, same in failing[: max(4, n // 6)]:
+        root = ctx.scratch("clipf")
+        pargs = []
+        for i, ptxt in enumerate(inp["patches"]):
+            with open(os.path.join(root, f"p{i}.patch"), "w") as f:
+                f.write(ptxt)
+            pargs += ["-p", f"p{i}.patch"]
+        with open(os.path.join(root, "a.go"), "w") as f:
+            f.write(inp["src"])
+        code, out, err = cl.gopatch(ctx.gopatch, root, pargs + ["a.go"])
+        after = open(os.path.join(root, "a.go")).read()
+        ctx.evaluations += 1
+        ctx.count("cli_tie:failing-change")
+        if "status" in what_checks or "decisions" in what_checks or "content" in what_checks:
+            if code == 0 or after != inp["src"]:
+                ctx.violation(f"a change of the run cannot be generated for this file (engine and specification: error); the binary exits {code} and "
+                              f"{'rewrote the file' if after != inp['src'] else 'left the file alone'}: a failed step must be reported and leave the file untouched",
+                              replay_payload(dict(inp, id=str(inp.get('id')) + " (through the gopatch binary)"), impl, model, {"written": after[:1500]}))
     if not sample:
         return
     # cases whose intermediate trees are not stable under print + re-parse are out of reach of a textual comparison
@@ -870,6 +890,8 @@ def c06(ctx):
                 out.append(f"{rel}: description printed although no change applies")
             if i["apply"][0] == "ok" and status == "ok" and not applies:
                 out.append(f"{rel}: gopatch treats the file as patched although no change of the patch applies to it")
+            if i["apply"][0] in ("replaceerr", "formaterr", "unknown") and status == "ok" and not applies:
+                out.append(f"{rel}: no change of the patch applies to it, yet gopatch reports an error for it ({str(i['apply'][1])[:120]}); the run must succeed")
         return out
     ctx.rule = CLI_RULE + (" For this property the decision 'no change applies' is taken from the Lean engine model on the dumped trees, "
                            "so that it does not depend on the binary's own belief; files that satisfy a patch's import guards but contain "
@@ -1212,6 +1234,21 @@ def c07(ctx):
     scen += corpus_scenarios("C07")
     optsets = [[], ["si"], ["print"], ["print", "si"], ["diff"], ["diff", "si"]]
     run_scenarios(ctx, scen, optsets, {"write", "stdout", "exit"}, post)
+    # the temporary sibling cannot be created (250-byte name) and the result is shorter than the original: whatever ends
+    # up on disk under exit status 0 must parse
+    root = ctx.scratch("c07long")
+    longname = "y" * 247 + ".go"
+    lsrc = "package a\n\nfunc g() {\n" + "".join(f"\taRatherLongFunctionName({i})\n" for i in range(30)) + "}\n"
+    cl.write_tree(root, {"d/" + longname: lsrc, "p.patch": "@@\nvar x expression\n@@\n-aRatherLongFunctionName(x)\n+g(x)\n"})
+    code, out, err = cl.gopatch(ctx.gopatch, root, ["-p", "p.patch", "d"])
+    ctx.evaluations += 1
+    ctx.nontrivial.add("c07-long-name")
+    after = open(os.path.join(root, "d", longname), "rb").read()
+    if code == 0 and emitted_parse_check(ctx, [("long-named file after a successful run", after)]):
+        ctx.violation("exit status 0 but the file on disk does not parse (its temporary sibling could not be created)",
+                      {"input": {"files": [longname], "patch": "-aRatherLongFunctionName(x) / +g(x)"}, "on_disk_tail": after[-200:].decode("utf-8", "replace")})
+    elif code != 0 and after != lsrc.encode():
+        ctx.violation("the run failed for the long-named file but its bytes changed", {"input": {"files": [longname]}})
     # a rewrite that does not parse must fail with and without import processing alike
     for sc in scen:
         root, pargs = setup_scenario(ctx, sc)
@@ -2266,6 +2303,11 @@ ILL_TYPED = [
     ("@@\n@@\n+for ... { bar() }\n-for ... { foo() }\n", "package a\n\nfunc f() { for i := 0; i < 3; i++ { foo() } }\n"),
     ("@@\nvar x expression\n@@\n-x\n+y\n", "package a\n\nimport \"fmt\"\n\nfunc f(a int) { fmt.Println(a) }\n"),
     ("@@\nvar x identifier\n@@\n-x\n+x.y\n", "package a\n\nfunc f(a int) { _ = a }\n\ntype T struct{ a int }\n"),
+    # an ill-typed change after one that succeeded, and before one that would
+    ("@@\nvar x expression\n@@\n-foo(x)\n+bar(x)\n\n@@\nvar y expression\n@@\n-y = baz(...)\n+... = y\n", "package a\n\nfunc f() {\n\tfoo(1)\n\ty = baz()\n}\n"),
+    ("@@\nvar y expression\n@@\n-y = baz(...)\n+... = y\n\n@@\nvar x expression\n@@\n-foo(x)\n+bar(x)\n", "package a\n\nfunc f() {\n\tfoo(1)\n\ty = baz()\n}\n"),
+    ("@@\nvar x expression\n@@\n-foo(x)\n+bar(x)\n\n@@\n@@\n-qux(...)\n+v = ...\n\n@@\nvar x expression\n@@\n-bar(x)\n+baz(x)\n", "package a\n\nfunc f() {\n\tfoo(1)\n\tqux()\n}\n"),
+    ("@@\nvar x expression\n@@\n-foo(x)\n+bar(x)\n\n@@\nvar x expression\n@@\n-sel(x)\n+pkg.x\n", "package a\n\nfunc f() {\n\tfoo(1)\n\tsel(g(2))\n}\n"),
     # elisions that stand for nothing, reproduced where the syntax needs at least one element
     ("@@\n@@\n-foo(...)\n+bar = ...\n", "package a\n\nfunc f() {\n\tfoo()\n\tfoo(1)\n}\n"),
     ("@@\n@@\n-foo(...)\n+bar := ...\n", "package a\n\nfunc f() {\n\tfoo()\n}\n"),
@@ -2579,13 +2621,31 @@ def c10(ctx):
     # duplicate import paths: the known divergence (F8) and the generated stream
     dup = {"id": "f8", "patches": ["@@\nvar x expression\n@@\n import bar \"example.com/pkg\"\n\n-foo(x)\n+bar.Foo(x)\n"],
            "src": "package a\n\nimport (\n\t\"example.com/pkg\"\n\tbar \"example.com/pkg\"\n)\n\nfunc f() { foo(1); pkg.X(); bar.Y() }\n"}
+    dups = [dup]
+    forms = ['"example.com/pkg"', 'bar "example.com/pkg"', 'qux "example.com/pkg"', '_ "example.com/pkg"']
+    k = 0
+    for a in forms:
+        for b in forms:
+            if a == b:
+                continue
+            for guard in forms[:3]:
+                k += 1
+                want = guard in (a, b)
+                dups.append({"id": f"dup{k}", "want": want, "patches": [f"@@\nvar x expression\n@@\n import {guard}\n\n-foo(x)\n+baz(x)\n"],
+                             "src": f"package a\n\nimport (\n\t{a}\n\t{b}\n)\n\nfunc f() {{ foo(1); pkg.X(); bar.Y(); qux.Z() }}\n"})
     with open(pth, "w") as f:
-        f.write(json.dumps(dup) + "\n")
-    for inp, orig, impl, model, same in run_engine_batch(ctx, ["-inputs", pth], "c10f8"):
+        for dcase in dups:
+            f.write(json.dumps(dcase) + "\n")
+    wants = {dcase["id"]: dcase.get("want", True) for dcase in dups}
+    dres = run_engine_batch(ctx, ["-inputs", pth], "c10f8")
+    for inp, orig, impl, model, same in dres:
         ctx.evaluations += 1
-        if not any(t.startswith("k") for t in impl["trace"]):
-            ctx.violation("a file importing the path both unnamed and as bar does not satisfy the guard import bar \"…\"",
-                          replay_payload(inp, impl, model))
+        got = any(t.startswith("k") for t in impl["trace"])
+        if got != wants.get(inp["id"], True):
+            ctx.violation("a file importing one path twice: the guard must hold exactly when one of the two imports has the stated form "
+                          f"(the change {'applied' if got else 'did not apply'})", replay_payload(inp, impl, model))
+    engine_projection(ctx, dres, {"decisions", "where"})
+    cli_projection(ctx, dres, {"decisions", "where"}, 40)
     engine_family(ctx, "c10", {"decisions", "where"}, n_quick=300, golden=False)
 
 @prop("C11")
@@ -2792,7 +2852,8 @@ def c09(ctx):
         cpath = os.path.join(VERIF, "corpus", "C09", cname)
         if os.path.exists(cpath):
             for w in json.load(open(cpath)):
-                todo.append(({"id": w["id"], "chain": w["chain"], "src": w["src"]}, w.get("how", "flags")))
+                for how_ in (("flags", "one-file") if cname == "seeded_chains.json" else (w.get("how", "flags"),)):
+                    todo.append(({"id": w["id"] + "/" + how_, "chain": w["chain"], "src": w["src"]}, how_))
     # a chain with a failing step
     todo.append(({"id": "failstep", "chain": ["@@\nvar x expression\n@@\n-foo(x)\n+bar(x)\n", "@@\nvar x expression\n@@\n-bar(x)\n+baz.x\n"],
                   "src": "package a\n\nfunc f() {\n\tfoo(g(1))\n}\n"}, "flags"))
